@@ -237,6 +237,8 @@ def run(eng: Engine, ck: Check):
     _defs_emit.identity_semantics(eng, ck, 'R-C10-REGISTRY', [('PeerConnection', CONN), ('ServerConnection', CONN), ('ListeningConnection', CONN)],
                                   'the registry removes a closed connection with `in` / list.remove(); two connections to one endpoint are different connections')
     opened_stream_rule(eng, ck, 'R-C10-CLOSED-ALWAYS', 'a connection reported CLOSED holds no open socket')
+    from .c02 import logger_adapter_total
+    logger_adapter_total(eng, ck, 'R-C10-CLOSED-ALWAYS')      # disconnect() logs between CLOSING and CLOSED: an exception there leaves the connection in CLOSING
     _defs_emit.enum_members_distinct(eng, ck, 'R-C10-TYPESTATE', [('ConnectionState', CONN), ('CloseReason', CONN), ('PeerConnectionState', CONN)], 'every life-cycle test compares against one state')
     # ---- R-C10-REGISTRY
     net_cls = repo.cls('Network', NET)
